@@ -19,6 +19,7 @@ pub mod mon_recovery;
 pub mod mon_c12;
 pub mod mon_c13;
 pub mod mon_c14;
+pub mod mon_c15;
 pub mod net;
 pub mod rec;
 pub mod run;
@@ -185,5 +186,14 @@ pub fn registry() -> Vec<Property> {
         subs: { let mut v = comp::c10_cc::subs(); v.extend(mon_c10::subs()); v },
         shards: 0,
     },
-    mon_c14::property()]
+    mon_c14::property(),
+    {
+        let c = comp::c15_keyset::property();
+        let rule: &'static str = Box::leak(format!("COMPONENT: {} END-TO-END (key_updates_e2e): real s2n-quic connections whose endpoints start a 1-RTT key update after N = 2..200 packets per key (hook aws_s2n_quic_verif) on generated transfers (<= 200 KB per direction, 1-3 streams) with long tapes of drops, duplicates and delays (30% of the cases also corruption/truncation) confined to a finite prefix. Non-trivial = generation >= 3 reached and packets were lost or arrived out of order; distinct = distinct scenarios.", c.rule).into_boxed_str());
+        let mut assumptions: Vec<&'static str> = c.assumptions.to_vec();
+        assumptions.push("END-TO-END: the only change to the code under test is the key update window (cfg(aws_s2n_quic_verif) hook in ApplicationSpace::key_limits(), env S2N_QUIC_VERIF_KEY_UPDATE_AFTER); confidentiality/integrity limits stay the real ones (2^23 and more), so the limit rules themselves are decided by the component half only. A packet is 'genuine and timely' when the scripted network delivered its datagram intact, once and without extra delay; key generations are the endpoints' own key_update events.");
+        let mut subs = c.subs;
+        subs.extend(mon_c15::subs());
+        Property { id: "C15", rule, assumptions: Box::leak(assumptions.into_boxed_slice()), subs, shards: 0 }
+    }]
 }
